@@ -92,6 +92,32 @@ func staticSlotsOf(ty int) []string {
 
 func hasStaticSlots(ty int) bool { return len(staticSlotsOf(ty)) > 0 }
 
+const (
+	wireScannerName = "github.com/go-kid/ioc/container/processors/dependencyAwarePostProcessors"
+	funcScannerName = "github.com/go-kid/ioc/container/processors/dependencyFunctionAwarePostProcessors"
+	dynScannerName  = "main/dynCompScanner"
+)
+
+// staticFirst: the definition scanners run in the order the singleton registry enumerates them (rank2), each appending to
+// the holder's property list: the points declared with real struct tags (the library's wire / func scanner) come before
+// the Base slots (the harness's dynamic scanner) exactly when their scanner is enumerated first.  (Natural-order runs are
+// oracle-only and do not depend on this.)
+func (r *gRun) staticFirst(ty int) bool {
+	if r.rank2 == nil || r.sc.natural {
+		return true
+	}
+	sc := wireScannerName
+	if ty == 32 {
+		sc = funcScannerName
+	}
+	a, ok1 := r.rank2[sc]
+	b, ok2 := r.rank2[dynScannerName]
+	if !ok1 || !ok2 {
+		return true
+	}
+	return a < b
+}
+
 var ifaceTypes = []reflect.Type{
 	reflect.TypeOf((*Ifc0)(nil)).Elem(), reflect.TypeOf((*Ifc1)(nil)).Elem(),
 	reflect.TypeOf((*Ifc2)(nil)).Elem(), reflect.TypeOf((*Ifc3)(nil)).Elem(),
@@ -976,10 +1002,14 @@ func (r *gRun) scenarioLine() string {
 	for i := range sc.nodes {
 		// points declared with real struct tags are scanned by the library's own (ordered) scanners, before the harness's dynamic
 		// scanner adds the Base slots: they come FIRST in the holder's property list
-		if hasStaticSlots(sc.nodes[i].ty) {
+		// (or LAST, when the dynamic scanner is enumerated before them: staticFirst)
+		if hasStaticSlots(sc.nodes[i].ty) && r.staticFirst(sc.nodes[i].ty) {
 			emit(i, staticSlotsOf(sc.nodes[i].ty))
 		}
 		emit(i, slotNames)
+		if hasStaticSlots(sc.nodes[i].ty) && !r.staticFirst(sc.nodes[i].ty) {
+			emit(i, staticSlotsOf(sc.nodes[i].ty))
+		}
 	}
 	emit(r.appRow, []string{"ApplicationRunners", "CloserComponents"})
 	return strings.Join(recs, " | ")
@@ -1035,13 +1065,18 @@ func (r *gRun) observation() string {
 func (r *gRun) slotKeys() []string {
 	var keys []string
 	for i, n := range r.sc.nodes {
-		if hasStaticSlots(n.ty) { // (first: see scenarioLine)
+		if hasStaticSlots(n.ty) && r.staticFirst(n.ty) { // (see scenarioLine)
 			for _, sn := range staticSlotsOf(n.ty) {
 				keys = append(keys, fmt.Sprintf("%d.%s", i, sn))
 			}
 		}
 		for _, sn := range slotNames {
 			if _, ok := n.slots[sn]; ok {
+				keys = append(keys, fmt.Sprintf("%d.%s", i, sn))
+			}
+		}
+		if hasStaticSlots(n.ty) && !r.staticFirst(n.ty) {
+			for _, sn := range staticSlotsOf(n.ty) {
 				keys = append(keys, fmt.Sprintf("%d.%s", i, sn))
 			}
 		}
